@@ -143,6 +143,21 @@ def mk_case(rng, kind, fmt, D, C, dtype, compress, **extra):
     return c
 
 
+def traced_flag(name):
+    """a capability flag of the regenerated Gen/Codec.v (the generator exercises a feature only where the traced source has it;
+    once it has, a theorem of Props/C18.v pins the flag, so a regression breaks an obligation instead of dropping the cases)"""
+    import re
+    try:
+        txt = open(os.path.join(vlib.COQ, "Gen", "Codec.v")).read()
+    except OSError:
+        return False
+    m = re.search(r"Definition " + name + r" : bool := (true|false)", txt)
+    if m:
+        return m.group(1) == "true"
+    m = re.search(r"Definition " + name + r" : list[^\n]*\n([^\n]*)", txt)
+    return bool(m) and ", false)" not in m.group(1)
+
+
 def gen_cases(ctx):
     rng = ctx.rng
     thorough = ctx.thorough()
@@ -173,8 +188,16 @@ def gen_cases(ctx):
         for D in (2, 3):
             for C in (1, 2):
                 cases.append(mk_case(rng, "roundtrip", fmt, D, C, rng.choice(DTYPES), True, entry="Image", search_only=True))
-            if KIND_OF[fmt] != "sitk":   # the native writers' guard explicitly admits data.ndim == grid.ndim
+            if KIND_OF[fmt] != "sitk" or traced_flag("gen_sitk_w_nochannel_same_as_c1"):   # where the writer admits data.ndim == grid.ndim
                 cases.append(mk_case(rng, "roundtrip", fmt, D, 1, rng.choice(DTYPES), rng.random() < 0.5, no_channel_dim=True))
+    # big-endian MetaImage files (written by the harness), where the traced reader handles them
+    if traced_flag("gen_meta_r_msb"):
+        for key in ("BinaryDataByteOrderMSB", "ElementByteOrderMSB"):
+            for D in (2, 3):
+                for C in (1, 2):
+                    for comp in (True, False):
+                        cases.append(mk_case(rng, "msb_mha", ".mha", D, C, rng.choice(["int16", "int32", "float32", "float64"]), comp,
+                                             msb_key=key, search_only=True))
     # flow fields
     for fmt in FORMATS:
         for D in (2, 3):
@@ -570,6 +593,13 @@ def evaluate(c, r):
             elif not c.get("no_channel_dim") and not (ff["size"] == list(gref["size"]) and close(ff["origin"], gref["origin"]) and close(ff["spacing"], gref["spacing"])
                                                        and close(ff["direction"], gref["direction"])):
                 out.append((f"C18:Grid.from_file:{fam}:D{D}:{sc}:grid-changed", f"Grid.from_file('{c['fmt']}') gives {ff}, written {gref}"))
+    elif kind == "msb_mha":
+        tagr = f"C18:read_image:{fam}:D{D}:{sc}:big-endian-{'compressed' if c['compress'] else 'raw'}"
+        rd = r["read"]
+        if "error" in rd:
+            out.append((tagr + f":raises-{rd['error']}", f"read_image of a big-endian ({c['msb_key']}) .mha raises {rd['error']}: {rd['msg'][:100]}"))
+        else:
+            compare_image(c, rd, c["grid"], "read_image of big-endian .mha", out, tagr)
     elif kind == "from_sitk":
         tagr = f"C18:read_image:{fam}:D{D}:{sc}:sitk-written"
         if r["write"] != "ok":
@@ -658,18 +688,11 @@ def _unknown(found):
 
 
 def explains(broken_item, found):
-    """only violations that are NOT listed as known findings can explain a broken obligation (a known defect
-    must not mask a new break of the same file)"""
-    fresh = _unknown(found)
-    if not fresh:
-        return False
-    b = broken_item
-    keys = " ".join(v.key for v in fresh)
-    for fam, toks in (("mha", ('".mha"', "meta", "Meta")), ("nifti", ('".nii', "nifti", "NIfTI")), ("mhd", ('".mhd"', "sitk")),
-                      ("nrrd", ('".nrrd"', "sitk")), ("FlowField", ("flow", "Flow"))):
-        if any(t in b for t in toks):
-            return fam in keys or (fam in ("mhd", "nrrd") and "Image.sitk" in keys)
-    return True
+    """a broken obligation (proof, translator unit, correspondence item) is attributed to any NEW concrete violation found by
+    the search -- one root cause in the I/O code typically breaks obligations of several format families at once (the ITK
+    specs share write_sitk).  Violations listed as known findings never explain anything: a known defect must not mask a
+    new break."""
+    return bool(_unknown(found))
 
 
 def replay(ctx, data):
